@@ -76,7 +76,7 @@ class TDevice(Device):
 
   def costv(self, s, p):
     ''' @override uv() to do r to t conversion. '''
-    return self.costv_t(self.r2t(s)) + s*p
+    return self.costv_t(self.r2t(s))/len(self) + s*p
 
   def deriv(self, s, p):
     ''' @override deriv() to do r to t conversion. Chain rule to account for r2t(). '''
